@@ -18,14 +18,17 @@ RULE = ("FAT type x size (every row boundary of the size->cluster tables +-1 sec
 ROWS = {12: [4084, 8168, 16336, 32672, 65344, 130688], 16: [8400, 32680, 262144], 32: [66600, 532480]}
 
 
-def check_one(ctx, m, ft, size, ss, nf, media, label, offset, fill):
+def check_one(ctx, m, ft, size, ss, nf, media, label, offset, fill, auto_size=False):
     args = dict(fat_type=ft, size=size, sector_size=ss, number_of_fats=nf, media_type=media, label=label, offset=offset)
+    if auto_size:
+        args["size_argument"] = None         # mkfs(size=None) on a device that ends `size` bytes behind the offset
+        ctx.dist["auto-size"] += 1
     ctx.evaluations += 1
     ctx.dist[f"ft{ft}-ss{ss}-nf{nf}"] += 1
     try:
         with warnings.catch_warnings():
             warnings.simplefilter("ignore")
-            dev, pf = mkfs_image(ft, size, offset=offset, sector_size=ss, number_of_fats=nf, media_type=media, label=label, volume_id=0x12345678)
+            dev, pf = mkfs_image(ft, size, offset=offset, auto_size=auto_size, sector_size=ss, number_of_fats=nf, media_type=media, label=label, volume_id=0x12345678)
     except Exception as e:  # noqa
         ctx.dist["rejected:" + type(e).__name__] += 1     # "formatting either fails with an error or ..."
         return
@@ -174,6 +177,8 @@ def run(ctx):
                 continue
             n += 1
             check_one(ctx, m, ft, size, ss, nf, medias[n % len(medias)], labels[n % len(labels)], 1536 if n % 5 == 0 else 0, fill=(n % 3 == 0))
+            if n % 7 == 0:       # the same without the size argument, always at an offset: the size comes from the device
+                check_one(ctx, m, ft, size, ss, nf, medias[n % len(medias)], labels[n % len(labels)], 1536 if n % 2 else 65536, fill=(n % 3 == 0), auto_size=True)
     finally:
         m.close()
 
